@@ -1,41 +1,237 @@
 //! A hand-written `FunctionDefinition` with a per-call definition context (C03).
-//! (filled in with the C03 monitor)
+//!
+//! `context()` creates a `Tag` with a fresh id. `check_param` appends to
+//! `Tag::seen` going through a different accessor of
+//! `FunctionDefinitionContext` for each argument position; `return_type` and
+//! `compile` report what they see. Every step is appended to a thread-local
+//! event log that the C03 oracle reads.
 
+use crate::refsem::{apply_sem, CallEvent};
+use crate::rv::{res_from_engine, RRes, RType};
+use std::cell::RefCell;
+use std::sync::atomic::{AtomicU64, Ordering};
 use wirefilter::{
-    CompiledFunction, FunctionDefinition, FunctionDefinitionContext, FunctionParam,
-    FunctionParamError, ParserSettings, Type,
+    CompiledFunction, FunctionArgKind, FunctionDefinition, FunctionDefinitionContext,
+    FunctionParam, FunctionParamError, GetType, ParserSettings, Type, TypeMismatchError,
 };
+
+#[derive(Clone, Debug, PartialEq, Eq)]
+pub struct Tag {
+    pub id: u64,
+    pub seen: Vec<String>,
+}
+
+#[derive(Clone, Debug, PartialEq, Eq)]
+pub enum CtxEvent {
+    Created { id: u64, site: u32 },
+    /// `accessor` reached the Tag (`ok`) while checking argument `pos`
+    Check { id: Option<u64>, site: u32, pos: usize, accessor: &'static str, ok: bool, seen_after: usize },
+    ReturnType { id: Option<u64>, site: u32, params: usize, seen: usize, via: &'static str },
+    Compile { id: Option<u64>, site: u32, params: usize, seen: usize, via: &'static str },
+    Missing { site: u32, at: &'static str },
+}
+
+static NEXT_ID: AtomicU64 = AtomicU64::new(1);
+
+thread_local! {
+    pub static CTX_LOG: RefCell<Vec<CtxEvent>> = const { RefCell::new(Vec::new()) };
+}
+
+pub fn take_ctx_log() -> Vec<CtxEvent> {
+    CTX_LOG.with(|l| std::mem::take(&mut *l.borrow_mut()))
+}
+
+fn log(e: CtxEvent) {
+    CTX_LOG.with(|l| l.borrow_mut().push(e));
+}
 
 #[derive(Debug)]
 pub struct CtxFn {
     pub site: u32,
 }
 
+fn describe(p: &FunctionParam<'_>) -> String {
+    format!("{:?}:{:?}", p.arg_kind(), p.get_type())
+}
+
 impl FunctionDefinition for CtxFn {
+    fn context(&self) -> Option<FunctionDefinitionContext> {
+        let id = NEXT_ID.fetch_add(1, Ordering::Relaxed);
+        log(CtxEvent::Created { id, site: self.site });
+        Some(FunctionDefinitionContext::new(Tag { id, seen: vec![] }))
+    }
+
     fn check_param(
         &self,
         _settings: &ParserSettings,
-        _params: &mut dyn ExactSizeIterator<Item = FunctionParam<'_>>,
-        _next_param: &FunctionParam<'_>,
-        _ctx: Option<&mut FunctionDefinitionContext>,
+        params: &mut dyn ExactSizeIterator<Item = FunctionParam<'_>>,
+        next_param: &FunctionParam<'_>,
+        ctx: Option<&mut FunctionDefinitionContext>,
     ) -> Result<(), FunctionParamError> {
+        let pos = params.len();
+        let Some(ctx) = ctx else {
+            log(CtxEvent::Missing { site: self.site, at: "check_param" });
+            return Ok(());
+        };
+        let entry = describe(next_param);
+        // a different accessor for each argument position
+        let (accessor, id, seen_after): (&'static str, Option<u64>, usize) = match pos % 4 {
+            0 => match ctx.as_any_mut().downcast_mut::<Tag>() {
+                Some(t) => {
+                    t.seen.push(entry);
+                    ("as_any_mut", Some(t.id), t.seen.len())
+                }
+                None => ("as_any_mut", None, 0),
+            },
+            1 => match ctx.downcast_mut::<Tag>() {
+                Some(t) => {
+                    t.seen.push(entry);
+                    ("downcast_mut", Some(t.id), t.seen.len())
+                }
+                None => ("downcast_mut", None, 0),
+            },
+            2 => {
+                // read through as_any_ref, then write
+                let seen_before = ctx.as_any_ref().downcast_ref::<Tag>().map(|t| (t.id, t.seen.len()));
+                match seen_before {
+                    Some((id, n)) => {
+                        if let Some(t) = ctx.downcast_mut::<Tag>() {
+                            t.seen.push(entry);
+                        }
+                        ("as_any_ref", Some(id), n + 1)
+                    }
+                    None => ("as_any_ref", None, 0),
+                }
+            }
+            _ => {
+                let seen_before = ctx.downcast_ref::<Tag>().map(|t| (t.id, t.seen.len()));
+                match seen_before {
+                    Some((id, n)) => {
+                        if let Some(t) = ctx.downcast_mut::<Tag>() {
+                            t.seen.push(entry);
+                        }
+                        ("downcast_ref", Some(id), n + 1)
+                    }
+                    None => ("downcast_ref", None, 0),
+                }
+            }
+        };
+        if id.is_none() {
+            // keep the definition usable for the rest of the parse: record the
+            // entry through the accessor that is known to work
+            if let Some(t) = ctx.downcast_mut::<Tag>() {
+                t.seen.push(describe(next_param));
+            }
+        }
+        log(CtxEvent::Check {
+            id,
+            site: self.site,
+            pos,
+            accessor,
+            ok: id.is_some(),
+            seen_after,
+        });
+        // typing: every argument is Bytes, field or literal
+        if next_param.get_type() != Type::Bytes {
+            return Err(FunctionParamError::TypeMismatch(TypeMismatchError {
+                expected: Type::Bytes.into(),
+                actual: next_param.get_type(),
+            }));
+        }
+        let _ = FunctionArgKind::Field;
         Ok(())
     }
+
     fn return_type(
         &self,
-        _params: &mut dyn ExactSizeIterator<Item = FunctionParam<'_>>,
-        _ctx: Option<&FunctionDefinitionContext>,
+        params: &mut dyn ExactSizeIterator<Item = FunctionParam<'_>>,
+        ctx: Option<&FunctionDefinitionContext>,
     ) -> Type {
+        match ctx {
+            None => log(CtxEvent::Missing { site: self.site, at: "return_type" }),
+            Some(c) => {
+                let (t, via) = match c.downcast_ref::<Tag>() {
+                    Some(t) => (Some(t), "downcast_ref"),
+                    None => (c.as_any_ref().downcast_ref::<Tag>(), "as_any_ref"),
+                };
+                log(CtxEvent::ReturnType {
+                    id: t.map(|t| t.id),
+                    site: self.site,
+                    params: params.len(),
+                    seen: t.map_or(0, |t| t.seen.len()),
+                    via,
+                });
+            }
+        }
         Type::Bytes
     }
+
     fn arg_count(&self) -> (usize, Option<usize>) {
-        (1, Some(0))
+        (1, Some(3))
     }
+
     fn compile(
         &self,
-        _params: &mut dyn ExactSizeIterator<Item = FunctionParam<'_>>,
-        _ctx: Option<FunctionDefinitionContext>,
+        params: &mut dyn ExactSizeIterator<Item = FunctionParam<'_>>,
+        ctx: Option<FunctionDefinitionContext>,
     ) -> CompiledFunction {
-        Box::new(|args| args.next().and_then(|a| a.ok()))
+        let nparams = params.len();
+        match ctx {
+            None => log(CtxEvent::Missing { site: self.site, at: "compile" }),
+            Some(c) => {
+                // alternate between the two consuming accessors
+                if nparams % 2 == 0 {
+                    match c.downcast::<Tag>() {
+                        Ok(t) => log(CtxEvent::Compile {
+                            id: Some(t.id),
+                            site: self.site,
+                            params: nparams,
+                            seen: t.seen.len(),
+                            via: "downcast",
+                        }),
+                        Err(_) => log(CtxEvent::Compile {
+                            id: None,
+                            site: self.site,
+                            params: nparams,
+                            seen: 0,
+                            via: "downcast",
+                        }),
+                    }
+                } else {
+                    match c.into_any().downcast::<Tag>() {
+                        Ok(t) => log(CtxEvent::Compile {
+                            id: Some(t.id),
+                            site: self.site,
+                            params: nparams,
+                            seen: t.seen.len(),
+                            via: "into_any",
+                        }),
+                        Err(_) => log(CtxEvent::Compile {
+                            id: None,
+                            site: self.site,
+                            params: nparams,
+                            seen: 0,
+                            via: "into_any",
+                        }),
+                    }
+                }
+            }
+        }
+        let site = self.site;
+        Box::new(move |args| {
+            let mut rargs: Vec<RRes> = Vec::new();
+            for a in args {
+                rargs.push(res_from_engine(&a).unwrap_or(Err(RType::Bool)));
+            }
+            let result = apply_sem(crate::ast::Sem::Ctx, &rargs);
+            crate::engine::CALL_LOG.with(|l| {
+                l.borrow_mut().push(CallEvent {
+                    site,
+                    args: rargs,
+                    result: result.clone(),
+                })
+            });
+            result.map(|r| r.to_lhs_unwrap())
+        })
     }
 }
